@@ -150,6 +150,26 @@ def classify(diag):
 
 def failure_info(asm, diag, build_lines):
     spans = diag.get("spans", [])
+    # a span inside another file (the `requires false` of `unreachable!()` lies in core/src/panic.rs) carries line numbers
+    # of THAT file: follow its macro expansion back to the call site in the generated file
+    fixed = []
+    for s in spans:
+        fn_ = s.get("file_name", "")
+        if fn_.startswith("/rustc/") or "/vstd/" in fn_ or fn_.startswith("vstd"):
+            e = s.get("expansion")
+            site = None
+            while e:
+                sp = e.get("span", {})
+                f2 = sp.get("file_name", "")
+                if not (f2.startswith("/rustc/") or "/vstd/" in f2 or f2.startswith("vstd")):
+                    site = sp
+                e = sp.get("expansion")
+            if site is not None:
+                s = dict(site, is_primary=s.get("is_primary"), label=s.get("label"))
+            else:
+                continue
+        fixed.append(s)
+    spans = fixed
     locs = []
     for s in spans:
         w = asm.where(s["line_start"])
